@@ -9,10 +9,10 @@ from props import c03_util as U
 PROP = "C03"
 LEVEL = "proof"
 GEN_UNITS = ["GenUtils"]
-COQ_TARGETS = ["Props/C03.vo", "Model/Harness.vo"]
-THEOREM_FILES = ["Props/C03.v"]
+COQ_TARGETS = ["Props/C03.vo", "Props/C03Src.vo", "Model/Harness.vo", "Model/C03Chk.vo"]
+THEOREM_FILES = ["Props/C03.v", "Props/C03Src.v"]
 COQ_IMPORTS = ("From Coq Require Import List ZArith Bool QArith Qcanon.\n"
-               "From PV Require Import Base.Index Np.Array Model.Sparse Model.Repr Model.Harness Model.C03Ops.\n"
+               "From PV Require Import Base.Index Np.Array Model.Sparse Model.Repr Model.Harness Model.C03Ops Model.C03Chk.\n"
                # case indices >= 5000 are nat literals that make coqc print one warning each; the driver reads the pipe only
                # after the process ends, so the warnings must be silenced or the shard blocks on a full pipe
                'Set Warnings "-abstract-large-number".\n')
@@ -20,10 +20,16 @@ RULE = ("every binary operator (+ - * / and or xor == != < <= > >=) x right-hand
         "ALL 4^cells zero-pattern pairs on the shapes (2,2), (3,), (2,1) [quick] / additionally (2,3), (2,2,2) [thorough], values from "
         "{-2,-1,1,2,3} with forced equal pairs, stored orders of both operands drawn independently from {sorted, reversed, random}; "
         "seeded random shapes <= 4 modes / 24 cells; unary neg/not/ones/elemfun over all patterns; non-trivial = more than one cell "
-        "and at least one stored nonzero in some operand; distinct = distinct (op, args)")
+        "and at least one stored nonzero in some operand; distinct = distinct (op, args). Wave 3: operands storing the IDENTICAL "
+        "subscript list in identical order with cancel_all / cancel_some / equal / mixed values x every operator; two-step histories "
+        "then:<op1>:<op2> = (A op1 R1) op2 R2 on the same Python objects, R2 in {scalar, A, R1, none}, both raw results observed; "
+        "memory layouts {F, C, strided view} of subs / vals / dense data; magnitudes 2^10, 2^24 with last-unit neighbours; every sparse "
+        "result must be fully well-formed (no duplicate, no explicit zero, nnz = rows = values, integer subs dtype, full() works) and "
+        "the operands must be unchanged after the call")
 CORRESPONDENCE_ONLY = []   # filled below
 EXPLANATION = ("pyttb's raw result (sparse: shape/subs/vals lists; dense: F-order data) is compared in Coq against the executable "
-               "element-wise specification spec_ew / spec_div (Model/C03Ops.v) evaluated on the literal operands; the theorems of "
+               "element-wise specification spec_ew / spec_div (Model/C03Ops.v; two-step histories: spec_then, Model/C03Chk.v) evaluated on "
+               "the literal operands, and every sparse result must be fully well-formed (sp_denotes4 / xsp_denotes4); the theorems of "
                "Props/C03.v prove that the modelled sparse algorithms compute exactly that specification for all inputs. Tie A: "
                "the algorithms that pair or split stored entries (sparse*sparse, sparse==sparse, logical_not, < <= > >=, != scalar, "
                "/ scalar 0) are transliterated over tt_intersect_rows / tt_setdiff_rows / tt_ismember_rows as REGENERATED from "
@@ -164,14 +170,137 @@ def gen_cases(rng, tier):
         for op in unary:
             subs, vals = sparse_from_pattern(shape, rpat(), rng, rng.choice(ORDERS))
             add(op, {"shape": list(shape), "subs": subs, "vals": vals})
+    # 5. operands storing the IDENTICAL subscript list in the identical order (accumulation over a fixed pattern), with
+    #    exact cancellation / equal values: every operator, the raw result must not carry the cancelled entries
+    for shape in [(2, 2), (3,), (2, 1, 2)] + ([(2, 3), (1, 4)] if big else []):
+        n = math.prod(shape)
+        for pa in itertools.product((0, 1), repeat=n):
+            if not any(pa) or (n > 4 and not big and rng.random() < 0.8):
+                continue
+            for mode in IDENT_MODES:
+                for op in U.BINOPS:
+                    add(op, identical_args(shape, pa, rng, mode))
+    # 6. two-step histories on the same objects: (A op1 R1) op2 R2 with R2 in {scalar, A, R1, none}; half of the
+    #    first steps run on identical stored patterns with cancellation (so that the intermediate is empty / smaller)
+    k = 0
+    for shape in [(2, 2), (3,), (2, 1, 2)] + ([(2, 3), (3, 1, 2)] if big else []):
+        n = math.prod(shape)
+        pats = list(itertools.product((0, 1), repeat=n))
+        if n > 4 and not big:
+            pats = rng.sample(pats, 12)
+        for pa in pats:
+            for rk, op1s in FIRST_OPS:
+                for op1 in op1s:
+                    for rep in range(2 if rk == "sparse" else 1):
+                        if rk == "sparse" and rep == 0 and any(pa):
+                            a = identical_args(shape, pa, rng, IDENT_MODES[k % len(IDENT_MODES)])
+                        else:
+                            pb = rng.choice(pats)
+                            a = binary_args(shape, pa, pb, rk, rng, c=rng.choice(SCALARS))
+                        op2, r2 = SECOND_OPS[k % len(SECOND_OPS)]
+                        k += 1
+                        if r2["k"] == "R" and rk != "sparse":
+                            r2 = {"k": "A"}
+                        a["r2"] = dict(r2)
+                        add(f"then:{op1}:{op2}", a)
+    # 7. memory layouts: subscript / value arrays of the sparse operands and the data of the dense operand held
+    #    F-contiguous, C-contiguous or as non-contiguous strided views (constructor with copy=False; T.data assigned)
+    k = 0
+    for _ in range(40 if big else 8):
+        shape = tuple(tgen.rand_shape(rng, maxn=3, maxcells=12))
+        n = math.prod(shape)
+        for rk in ("sparse", "dense"):
+            for op in U.BINOPS:
+                pa = [int(rng.random() < 0.5) for _ in range(n)]
+                pb = [int(rng.random() < 0.6) for _ in range(n)]
+                a = binary_args(shape, pa, pb, rk, rng)
+                a["layout"] = {"A": {"sub": LAYOUTS[k % 3], "val": LAYOUTS[(k // 3) % 3]},
+                               "B": {"sub": LAYOUTS[(k // 9) % 3], "val": LAYOUTS[(k + 1) % 3]},
+                               "dense": LAYOUTS[(k // 2) % 3]}
+                k += 1
+                add(op, a)
+    # 8. magnitudes: integer values scaled by 2^10 / 2^24 with neighbours that differ in the last unit (ties under any
+    #    reduced precision), all exactly representable (products < 2^53)
+    for _ in range(30 if big else 6):
+        shape = tuple(tgen.rand_shape(rng, maxn=3, maxcells=8))
+        n = math.prod(shape)
+        for rk in ("sparse", "dense", "scalar"):
+            for op in U.BINOPS:
+                if op == "div":
+                    continue
+                pa = [int(rng.random() < 0.6) for _ in range(n)]
+                pb = [int(rng.random() < 0.6) for _ in range(n)]
+                sc = rng.choice((2 ** 10, 2 ** 24))
+                a = binary_args(shape, pa, pb, rk, rng, c=rng.choice((-1, 1)) * (sc + rng.choice((0, 1))))
+                big_values(a, rng, sc)
+                add(op, a)
     return cases
+
+
+IDENT_MODES = ("cancel_all", "cancel_some", "equal", "mixed")
+LAYOUTS = ("F", "C", "view")
+# first steps whose result is sparse, by kind of right-hand side
+FIRST_OPS = (("sparse", ("add", "sub", "mul", "and", "or", "xor", "eq", "ne", "lt", "le", "gt", "ge")),
+             ("dense", ("mul", "and", "eq", "lt", "ge")),
+             ("scalar", ("mul", "and", "ne", "gt", "le")))
+# second steps: (operator, right-hand side) — scalar, the first operand A again, the first right-hand side R again, unary
+SECOND_OPS = (("eq", {"k": "scalar", "c": 0}), ("ne", {"k": "scalar", "c": 0}), ("not", {"k": "un"}),
+              ("le", {"k": "scalar", "c": 0}), ("and", {"k": "scalar", "c": 1}), ("eq", {"k": "A"}),
+              ("add", {"k": "R"}), ("sub", {"k": "A"}), ("mul", {"k": "A"}), ("or", {"k": "R"}), ("xor", {"k": "A"}),
+              ("gt", {"k": "scalar", "c": -1}), ("ones", {"k": "un"}), ("neg", {"k": "un"}), ("div", {"k": "scalar", "c": 0}),
+              ("div", {"k": "scalar", "c": 2}), ("mul", {"k": "scalar", "c": 0}), ("ge", {"k": "R"}), ("lt", {"k": "A"}),
+              ("and", {"k": "R"}), ("ne", {"k": "A"}), ("add", {"k": "A"}), ("mul", {"k": "scalar", "c": -1}))
+
+
+def identical_args(shape, pa, rng, mode):
+    """two sparse operands with the SAME stored subscript list in the same order; values of the second one
+    cancel (b = -a) / equal (b = a) those of the first by `mode`"""
+    subs, vals = sparse_from_pattern(shape, pa, rng, rng.choice(ORDERS))
+    m = len(vals)
+    if mode == "cancel_all":
+        bv = [-v for v in vals]
+    elif mode == "equal":
+        bv = list(vals)
+    else:
+        hit = rng.randrange(m)
+        bv = []
+        for k, v in enumerate(vals):
+            r = rng.random()
+            if k == hit or r < 0.4:
+                bv.append(-v)
+            elif mode == "mixed" and r < 0.7:
+                bv.append(v)
+            else:
+                bv.append(rng.choice(VALS))
+    return {"shape": list(shape), "subs": subs, "vals": vals, "rk": "sparse",
+            "bsubs": [list(s) for s in subs], "bvals": bv}
+
+
+def big_values(a, rng, sc):
+    """scale the stored values in place; pairs at common positions become equal or neighbours (differ by 1)"""
+    def scale(v):
+        return v * sc + rng.choice((0, 0, 1, -1))
+    a["vals"] = [scale(v) for v in a["vals"]]
+    if a["rk"] == "dense":
+        a["bd"] = [scale(v) if v else 0 for v in a["bd"]]
+        other = {tuple(s): k for k, s in enumerate(tgen.all_subs(a["shape"]))}
+        for s, v in zip(a["subs"], a["vals"]):
+            k = other[tuple(s)]
+            if a["bd"][k] and rng.random() < 0.5:
+                a["bd"][k] = v + rng.choice((0, 1, -1))
+    elif a["rk"] == "sparse":
+        a["bvals"] = [scale(v) for v in a["bvals"]]
+        pos = {tuple(s): v for s, v in zip(a["subs"], a["vals"])}
+        for k, s in enumerate(a["bsubs"]):
+            if tuple(s) in pos and rng.random() < 0.5:
+                a["bvals"][k] = pos[tuple(s)] + rng.choice((0, 1, -1))
 
 
 # ---------------------------------------------------------------------------------------------
 # pyttb side
 # ---------------------------------------------------------------------------------------------
 def run_impl(c):
-    return U.run_elementwise(c.op, c.args)
+    return U.run_history(c.op, c.args)
 
 
 # ---------------------------------------------------------------------------------------------
@@ -190,46 +319,83 @@ def raw_ok(o):
     if o["kind"] == "dense":
         return True
     rows_ok = all(len(r) == len(o["shape"]) and all(x >= 0 for x in r) for r in o["subs"])
-    return rows_ok and o.get("subs_integral", True) and o["nnz"] == len(o["subs"]) == len(o["vals"])
+    return (rows_ok and o.get("subs_integral", True) and o.get("subs_dtype_int", True) and o.get("full_ok", True)
+            and o["nnz"] == len(o["subs"]) == len(o["vals"]))
+
+
+def un_fun(op):
+    return {"neg": "Z.opp", "not": "znot", "ones": "zones"}[op]
+
+
+def step_expr(o, zspec=None, xspec=None):
+    """Gallina bool: the raw observation of one step is fully well-formed (no duplicate, no explicit zero, nnz = number
+    of rows = number of values) and denotes the specification (zspec : dense Z, or xspec : dense xval for divisions)"""
+    if "exc" in o or o.get("kind") not in ("sparse", "dense") or not raw_ok(o):
+        return "false"
+    if xspec is not None:
+        if o["kind"] == "sparse":
+            return f"xsp_denotes4 {gobs_sparse_x(o)} {xspec}"
+        return f"xdense_close (mkDense {gnlist(o['shape'])} {U.gxlist(o['data'])}) {xspec}"
+    if o["kind"] == "sparse":
+        if not tgen.all_int(o["vals"]):
+            return "false"
+        return f"sp_denotes4 {gobs_sparse_z(o)} {zspec}"
+    if not tgen.all_int(o["data"]):
+        return "false"
+    return f"dense_eqb {tgen.gdense(o['shape'], o['data'])} {zspec}"
+
+
+def gr2(a):
+    r2 = a["r2"]
+    if r2["k"] == "scalar":
+        return f"(RScalar {gz(r2['c'])})"
+    if r2["k"] == "A":
+        return f"(RSparse {U.gsp(a)})"
+    return U.grhs(a)
+
+
+def first_spec(op, a):
+    """(zspec, xspec) of a single operation"""
+    A = U.gsp(a)
+    if op == "div":
+        return None, f"(spec_div {A} {U.grhs(a)})"
+    if op == "rdiv":
+        return None, f"(spec_rdiv {gz(a['c'])} {A})"
+    if op in U.COQ_F:
+        return f"(spec_ew {U.COQ_F[op]} {A} {U.grhs(a)})", None
+    if op in U.UNARY:
+        return f"(spec_un {un_fun(op)} {A})", None
+    if op.startswith("elemfun:"):
+        return f"(spec_elemfun {U.ELEMFUNS[op.split(':')[1]][1]} {A})", None
+    raise ValueError(op)
 
 
 def coq_check(c, o):
     a = c.args
-    op = c.op
-    if "exc" in o or o.get("kind") not in ("sparse", "dense") or not raw_ok(o):
+    if "exc" in o or o.get("kind") != "steps" or not o.get("intact", False):
         return "false"
-    A = U.gsp(a)
-    if op in ("div", "rdiv"):
-        spec = f"(spec_div {A} {U.grhs(a)})" if op == "div" else f"(spec_rdiv {gz(a['c'])} {A})"
-        if o["kind"] == "sparse":
-            return f"xsp_denotes {gobs_sparse_x(o)} {spec}"
-        return f"xdense_close (mkDense {gnlist(o['shape'])} {U.gxlist(o['data'])}) {spec}"
-    if op in U.COQ_F:
-        spec = f"(spec_ew {U.COQ_F[op]} {A} {U.grhs(a)})"
-    elif op == "neg":
-        spec = f"(spec_un Z.opp {A})"
-    elif op == "not":
-        spec = f"(spec_un znot {A})"
-    elif op == "ones":
-        spec = f"(spec_un zones {A})"
-    elif op.startswith("elemfun:"):
-        spec = f"(spec_elemfun {U.ELEMFUNS[op.split(':')[1]][1]} {A})"
+    ops = c.op.split(":")[1:] if c.op.startswith("then:") else [c.op]
+    if len(o["steps"]) != len(ops):
+        return "false"
+    z1, x1 = first_spec(ops[0], a)
+    e = step_expr(o["steps"][0], z1, x1)
+    if len(ops) == 1:
+        return e
+    A, f1, r1, op2 = U.gsp(a), U.COQ_F[ops[0]], U.grhs(a), ops[1]
+    if op2 in U.UNARY:
+        e2 = step_expr(o["steps"][1], f"(spec_then_un {f1} {un_fun(op2)} {A} {r1})")
+    elif op2 == "div":
+        e2 = step_expr(o["steps"][1], None, f"(spec_then_div {f1} {A} {r1} {gr2(a)})")
     else:
-        raise ValueError(op)
-    if o["kind"] == "sparse":
-        if not tgen.all_int(o["vals"]):
-            return "false"
-        return f"sp_denotes3 {gobs_sparse_z(o)} {spec}"
-    if not tgen.all_int(o["data"]):
-        return "false"
-    return f"dense_eqb {tgen.gdense(o['shape'], o['data'])} {spec}"
+        e2 = step_expr(o["steps"][1], f"(spec_then {f1} {U.COQ_F[op2]} {A} {r1} {gr2(a)})")
+    return f"({e}) && ({e2})"
 
 
 # ---------------------------------------------------------------------------------------------
 # brute-force oracle (pure Python loops; shares nothing with pyttb or with the Coq model)
 # ---------------------------------------------------------------------------------------------
 def oracle(c, o):
-    return U.judge(o, c.args["shape"], U.expected_dense(c.op, c.args), zeros_ok=True)
+    return U.judge_steps(o, c.op, c.args, zeros_ok=False)
 
 
 # ---------------------------------------------------------------------------------------------
@@ -239,14 +405,23 @@ def _rk(c):
     return c.args.get("rk")
 
 
-def _div_sparse_bad(c):
-    """A-07: sparse / sparse is right only when both operands have the same support stored in aligned order"""
+def _div_sparse(c):
     a = c.args
     if c.op != "div" or _rk(c) != "sparse":
-        return False
-    sa = {tuple(s) for s in a["subs"]}
-    sb = {tuple(s) for s in a["bsubs"]}
-    return sa != sb or not U.common_aligned(a)
+        return None
+    return {tuple(s) for s in a["subs"]}, {tuple(s) for s in a["bsubs"]}
+
+
+def _div_sparse_supports_differ(c):
+    """C03-N7: x/0 -> NaN (not +-inf), 0/x stored as an explicit zero: exactly the inputs whose stored supports differ"""
+    p = _div_sparse(c)
+    return p is not None and p[0] != p[1]
+
+
+def _div_sparse_misaligned(c):
+    """A-07 (index misuse): same support, common subscripts stored in different relative orders"""
+    p = _div_sparse(c)
+    return p is not None and p[0] == p[1] and not U.common_aligned(c.args)
 
 
 def _div_dense_00(c):
@@ -258,8 +433,9 @@ def _div_dense_00(c):
 
 
 TRIGGERS = {
-    # only the OPEN findings keep a trigger (A-07 sparse/sparse division, C03-N5 sparse/dense division at common zeros)
-    "div_sparse_supports_differ_or_misaligned": _div_sparse_bad,
+    # only the OPEN findings keep a trigger (A-07 / C03-N7 sparse/sparse division, C03-N5 sparse/dense division at common zeros)
+    "div_sparse_supports_differ": _div_sparse_supports_differ,
+    "div_sparse_same_support_misaligned": _div_sparse_misaligned,
     "div_dense_common_zero": _div_dense_00,
 }
 
@@ -273,20 +449,24 @@ def _witness(op, args):
 
 W22 = {"shape": [2, 2]}
 WITNESS_INPUTS = {
-    "A-07": ("div", dict(W22, subs=[[1, 0]], vals=[4], rk="sparse", bsubs=[[1, 1], [0, 0]], bvals=[3, 2])),
+    "A-07": ("div", dict(W22, subs=[[1, 1], [0, 0]], vals=[3, 2], rk="sparse", bsubs=[[0, 0], [1, 1]], bvals=[5, 7])),
+    "C03-N7": ("div", dict(W22, subs=[[1, 0]], vals=[4], rk="sparse", bsubs=[[1, 1]], bvals=[3])),
     "C03-N5": ("div", dict(W22, subs=[[1, 1], [0, 0]], vals=[3, 2], rk="dense", bd=[1, 0, 2, 3])),
 }
 WITNESSES = {k: _witness(*v) for k, v in WITNESS_INPUTS.items()}
 
 CORRESPONDENCE_ONLY = [
-    "__truediv__ with a SPARSE right-hand side: the code as it is (open finding A-07) is transliterated over the generated helpers, refuted "
-    "(C03_div_sparse_asis_refuted) and proved right only for operands with identical stored subscript lists (C03_div_sparse_asis_partial); "
-    "the correct quotient is checked against the executable IEEE specification spec_div only",
+    "__truediv__ with a SPARSE right-hand side: the code as it is (open findings A-07 index misuse, C03-N7 x/0 -> NaN and stored zeros) "
+    "is transliterated over the generated helpers, refuted (C03_div_sparse_asis_refuted) and proved right only for "
+    "operands with identical stored subscript lists (C03_div_sparse_asis_partial); the correct quotient is checked against the executable "
+    "IEEE specification spec_div only",
     "__truediv__ with a DENSE right-hand side at positions where both operands are 0 (open finding C03-N5: C03_div_dense_refuted / _partial)",
     "__rtruediv__ (scalar / sparse) and sparse (+ - or xor) scalar/dense: full() then the dense operator: proved generically "
     "(C03_dense_result_scalar / _dense for any element function), the dense operator itself is tensor.py's (C02)",
-    "_compare groups 1 and 2 are written in the source with `opposite_operator`; the model states them with the operator itself "
-    "(equal on the nonzero stored values they are applied to); tied by correspondence",
-    "__eq__ (scalar, dense), __ne__ (sparse, dense): hand transliterations (tt_union_rows and boolean-mask scatter are not generated); proved = spec, tied by correspondence",
-    "sparse * Kruskal, sparse / Kruskal (not generated)",
+    "__eq__ (dense), __ne__ (sparse, dense): hand transliterations (boolean-mask scatter selfIdx[idx] = False and tt_union_rows are not used "
+    "in generated form); proved = spec, tied by correspondence",
+    "two-step histories (A op1 R1) op2 R2, memory layouts of the operands (F / C / strided views), operands unchanged after the call, "
+    "integer dtype of the result's subscripts and full() of every sparse result: correspondence only (composition of the per-operator theorems "
+    "needs the intermediate to be well-formed, which the theorems give; the Python object identity / layout is not modelled)",
+    "sparse * Kruskal, sparse / Kruskal (not in the property text: scalar, dense, sparse operands): not covered",
 ]
